@@ -48,15 +48,20 @@ NSH = 16
 
 # ------------------------------------------------------------------------------------------------ plan
 def kill_configs(tier):
-    """(payload gz?, download_if_missing, download_even_if_available, warm cache?)"""
+    """(payload gz?, download_if_missing, download_even_if_available, warm cache?, payload rows).
+    Payload sizes matter: 40 rows (~0.8 KB) stay entirely in user-space buffers until the files are closed, 400 rows
+    (~6.5 KB pickle) exceed the file buffer once, 6000 rows (~96 KB pickle, ~150 KB csv) need several write calls and
+    exceed pickle's 64 KiB framing threshold."""
     if tier == "quick":
-        return [(False, True, False, False)]
+        return [(False, True, False, False, 40)]
     out = []
     for gz in (False, True):
         for dim in (True, False):
             for deia in (False, True):
                 for warm in (False, True):
-                    out.append((gz, dim, deia, warm))
+                    downloads = dim and (deia or not warm)
+                    for rows in ((40, 400, 6000) if downloads else (40, 6000)):
+                        out.append((gz, dim, deia, warm, rows))
     return out
 
 
@@ -66,6 +71,8 @@ def plan(tier, seed):
     stride = 4 if tier == "quick" else 1
     for ci, cfg in enumerate(cfgs):
         for mode in ("line", "call", "syscall"):
+            if tier == "quick" and mode == "syscall":
+                cfg = cfg[:4] + (6000,)        # many write calls: the interesting case for syscall-level kills
             nparts = 8 if tier == "quick" else (6 if mode == "line" else 2)
             if tier == "quick" and mode != "line":
                 nparts = 2
@@ -87,8 +94,8 @@ def exhaustive(tier, merged):
                 "final payloads; crash points: every 4th LINE event and every CALL/C_RETURN and traced syscall of one "
                 "configuration; flag table complete")
     return ("fault sequences: all 1812 over 4 fault kinds of length 0..n_retries+2 for n_retries 0..3 x 5 final payloads; "
-            "crash points: every LINE, CALL/C_RETURN event and traced syscall of all 16 (payload x flags x cache) "
-            "configurations; flag table complete; all ordered pairs of the remote names")
+            "crash points: every LINE, CALL/C_RETURN event and traced syscall of all (gzip x flags x cache x payload "
+            "size) configurations; flag table complete; all ordered pairs of the remote names")
 
 
 # ------------------------------------------------------------------------------------------------ (a) fault sequences
@@ -206,13 +213,13 @@ def judge_fault(ctx, nr, seq, fin, r, lst, follow, home=None):
 
 # ------------------------------------------------------------------------------------------------ (b) crash points
 def cfg_name(cfg):
-    gz, dim, deia, warm = cfg
-    return "%s,dim=%d,deia=%d,%s" % ("gzip" if gz else "plain", dim, deia, "warm" if warm else "cold")
+    gz, dim, deia, warm, rows = cfg
+    return "%s,dim=%d,deia=%d,%s,rows=%d" % ("gzip" if gz else "plain", dim, deia, "warm" if warm else "cold", rows)
 
 
 def warm_up(cfg, url, rows, home, scratch):
     """pre-existing cache entry, produced by a separate, untraced child so that no kill point can fall into it"""
-    gz, dim, deia, warm = cfg
+    gz, dim, deia, warm = cfg[:4]
     if not warm:
         return
     rc, out, err = _ds.run_child({"home": home, "steps": [
@@ -223,7 +230,7 @@ def warm_up(cfg, url, rows, home, scratch):
 
 
 def kill_steps(cfg, url, rows):
-    gz, dim, deia, warm = cfg
+    gz, dim, deia, warm = cfg[:4]
     pre = []
     target = {"op": "remote", "url": url, "dataset_filename": "entry", "folder": "fold", "gz": gz, "rows": rows,
               "flags": {"download_if_missing": bool(dim), "download_even_if_available": bool(deia)},
@@ -273,7 +280,7 @@ def run_kill(ctx, spec):
     mode = spec["mode"]
     name = cfg_name(cfg)
     url = URL % ("kill-" + name.replace(",", "_").replace("=", ""))
-    rows = 400
+    rows = cfg[4]
     scratch = _ds.scratch_root()
     try:
         steps, ti = kill_steps(cfg, url, rows)
@@ -323,7 +330,7 @@ def run_kill(ctx, spec):
 
 
 def judge_after_kill(ctx, cid, cfg, url, rows, home, scratch, killed, out, ti):
-    gz, dim, deia, warm = cfg
+    gz, dim, deia, warm = cfg[:4]
     mode = cid["mode"]
     ctx.judged()
     ctx.monitor({"line": "c19:kill_line", "call": "c19:kill_call", "syscall": "c19:kill_syscall"}[mode])
@@ -655,10 +662,11 @@ def replay(ctx, case):
         scratch = _ds.scratch_root()
         try:
             url = URL % ("kill-" + cfg_name(cfg).replace(",", "_").replace("=", ""))
-            steps, ti = kill_steps(cfg, url, 400)
+            rows = cfg[4]
+            steps, ti = kill_steps(cfg, url, rows)
             home = os.path.join(scratch, "h")
             os.mkdir(home)
-            warm_up(cfg, url, 400, home, scratch)
+            warm_up(cfg, url, rows, home, scratch)
             if case["mode"] == "syscall":
                 prefix = ["strace", "-f", "-qq", "-o", "/dev/null", "-e", "trace=" + case["what"],
                           "-e", "inject=%s:signal=KILL:when=%d" % (case["what"], case["at"])]
@@ -666,7 +674,7 @@ def replay(ctx, case):
             else:
                 rc, out, err = _ds.run_child({"home": home, "steps": steps,
                                               "kill": {"events": case["mode"], "at": case["at"], "step": ti}}, scratch)
-            judge_after_kill(ctx, case, cfg, url, 400, home, scratch, out is None, out, ti)
+            judge_after_kill(ctx, case, cfg, url, rows, home, scratch, out is None, out, ti)
         finally:
             shutil.rmtree(scratch, ignore_errors=True)
     elif k == "concurrent":
